@@ -163,16 +163,20 @@ func watchOp(t []string) string {
 		}
 		syscall.Kill(old, syscall.Signal(sig))
 		// the old worker goes; either a new one comes, or the watcher ends
-		nw := e.waitWorker(old, 3*time.Second)
-		if nw != 0 {
-			e.workers[nw] = true
-			time.Sleep(30 * time.Millisecond)
-			return "respawned=1 " + e.state()
-		}
-		// no new worker: give the watcher a moment to end
-		select {
-		case <-e.done:
-		case <-time.After(2 * time.Second):
+		// either a new worker comes, or the watcher ends supervision (and exits); a loaded machine may take its time,
+		// so wait for one of the two events rather than for a fixed period
+		deadline := time.Now().Add(15 * time.Second)
+		for time.Now().Before(deadline) {
+			if nw := e.waitWorker(old, 50*time.Millisecond); nw != 0 {
+				e.workers[nw] = true
+				time.Sleep(30 * time.Millisecond)
+				return "respawned=1 " + e.state()
+			}
+			select {
+			case <-e.done:
+				return "respawned=0 " + e.state()
+			default:
+			}
 		}
 		return "respawned=0 " + e.state()
 	case "term", "termrace":
